@@ -116,13 +116,28 @@ KEYSETS = [["a", "b"], ["a", "ab", "a.b"], ["a", "a.0000000000000000000000000000
 
 
 def run_c24(rnd, tier, v, stats):
+    heads24 = []
+    try:
+        _run_c24(rnd, tier, v, stats, heads24)
+    finally:
+        import shutil
+        for h in heads24:
+            shutil.rmtree(h, ignore_errors=True)
+
+
+def _run_c24(rnd, tier, v, stats, heads24):
     from hio.base import openDuror
     from hio.base import during
     N = 80 if tier == "quick" else 1200
     for it in range(N):
         keys = rnd.choice(KEYSETS)
         kind = rnd.choice(["plain", "io", "ioset"])
-        with openDuror(name="w%d" % it) as db:
+        # (a private head directory instead of temp=True: hio never removes the mkdtemp directory of a temp resource -- recorded C29
+        #  finding -- and a check must not leave thousands of directories in /tmp)
+        import tempfile, shutil
+        head24 = tempfile.mkdtemp(prefix="verif_c24_")
+        heads24.append(head24)
+        with openDuror(name="w%d" % it, temp=False, headDirPath=head24, clear=True) as db:
             sub = {"plain": during.Suber, "io": during.IoSuber, "ioset": during.IoSetSuber}[kind](db=db, subkey="t.")
             model = {}
             ops = []
